@@ -22,7 +22,32 @@ def run(prop, tier):
     n = len(frag)
     rng = random.Random(vlib.seed())
     allpairs = [(a, b) for a in range(1, n + 1) for b in range(1, n + 1)]
-    pairs = rng.sample(allpairs, min(len(allpairs), 1500 if tier == "quick" else 8000))
+    # stratified: operands of one structural kind interact (two list atoms / two mapping atoms in one conjunction); a uniform
+    # sample of all pairs is mostly cross-kind pairs whose intersection is trivially empty
+    def kind(t):
+        k = t["t"]
+        if k in ("arr", "tuple"):
+            return "list"
+        if k == "obj":
+            return "map"
+        if k in ("union", "inter"):
+            ks = {kind(m) for m in t["ms"]}
+            return ks.pop() if len(ks) == 1 else "mixed"
+        return "other"
+    kinds = [kind(t) for t in frag]
+    same = {kd: [(a, b) for (a, b) in allpairs if kinds[a - 1] == kd and kinds[b - 1] == kd] for kd in ("list", "map")}
+    cap = {"list": 1200, "map": 600} if tier == "quick" else {"list": 4000, "map": 3000}
+    pairs = []
+    for kd in ("list", "map"):
+        pairs += rng.sample(same[kd], min(len(same[kd]), cap[kd]))
+    # every type against itself (intersect = the type itself) and against null (diff = the type itself): the result is the
+    # operand, materialised from its decision diagram
+    nulls = [i for i, t in enumerate(frag, 1) if t == {"t": "prim", "p": "null"}]
+    pairs += [(a, a) for a in range(1, n + 1)] + [(a, nulls[0]) for a in range(1, n + 1) if nulls]
+    pairs = list(dict.fromkeys(pairs))
+    chosen = set(pairs)
+    rest = [p for p in allpairs if p not in chosen]
+    pairs += rng.sample(rest, min(len(rest), 900 if tier == "quick" else 5000))
     src = semlib.program(frag, env)
     d = os.path.join(vlib.WORK, tag)
     os.makedirs(d, exist_ok=True)
